@@ -23,6 +23,8 @@ def configs(tier):
                  splits={0: 2, 1: 2}, parity_limit=6144)]
     # disks whose whole recorded state is one symlink / one empty directory
     cs.append(Config(levels=1, ndisks=4, tag="sparse", contents=["c0/content", "c1/content"]))
+    # a disk whose only recorded state are DELETED positions (emptied, the sync that follows stops early)
+    cs.append(Config(levels=2, ndisks=2, tag="emptied", contents=["c0/content", "c1/content"]))
     if tier == "thorough":
         cs += [Config(levels=2, ndisks=3, tag="hole", contents=["c0/content", "c1/content"]),
                Config(levels=3, z=True, ndisks=2, hashsize=2, contents=["c0/content", "c1/content"])]
@@ -38,7 +40,12 @@ def init_ops(cfg):
         ops = [o for o in ops if not (o[0] != "cmd" and o[1] in ("d3", "d4"))]
         extra += [("symlink", "d3", "only-a-link", "../d1/a"), ("mkdir", "d4", "only/an/empty/dir")]
     i = ops.index(("cmd", "sync"))
-    return ops[:i] + extra + ops[i:]
+    ops = ops[:i] + extra + ops[i:]
+    if cfg.tag == "emptied":
+        # d1 holds one file longer than everything on d2; it is emptied and the forced sync is limited to the first stripe
+        j = ops.index(("cmd", "sync"))
+        ops = ops[:j] + [("write", "d1", "0long", 12000, 0)] + ops[j:] + [("emptydisk", "d1"), ("cmd", "sync", "-E", "-B", "1")]
+    return ops
 
 
 def dumps(L, copy_index=None):
@@ -76,6 +83,9 @@ def step(L, op, res, hist):
             for o in P.deleted_continuity(c0, c):
                 o["where"] = where
                 v.append(o)
+    # the parity side of what is recorded (C06's oracle): a state that forgets pending positions shows up as stale parity
+    for o in X.c06(L, where):
+        v.append(o)
     # independent encoder == tool bytes
     enc = C.encode(c, now=L.time)
     if enc != raw:
